@@ -82,12 +82,19 @@ import json, sys
 from shroud import ast, statements, typemap, util
 class Cfg: pass
 cfg = Cfg()
-lib = dict(library="xlib", cxx_header="xlib.hpp", language="c++", declarations=[
-    dict(decl="enum Color { RED, GREEN }"),
-    dict(decl="struct Pt { int x; double y; }"),
-    dict(decl="class Kls", declarations=[dict(decl="Kls()"), dict(decl="~Kls()")]),
-    dict(decl="namespace ns", declarations=[dict(decl="enum Inner { A, B }"), dict(decl="class Deep")]),
-])
+LANG = sys.argv[1] if len(sys.argv) > 1 else "c++"
+if LANG == "c":
+    lib = dict(library="xlib", cxx_header="xlib.h", language="c", declarations=[
+        dict(decl="enum Color { RED, GREEN }"),
+        dict(decl="struct Pt { int x; double y; }"),
+    ])
+else:
+    lib = dict(library="xlib", cxx_header="xlib.hpp", language="c++", declarations=[
+        dict(decl="enum Color { RED, GREEN }"),
+        dict(decl="struct Pt { int x; double y; }"),
+        dict(decl="class Kls", declarations=[dict(decl="Kls()"), dict(decl="~Kls()")]),
+        dict(decl="namespace ns", declarations=[dict(decl="enum Inner { A, B }"), dict(decl="class Deep")]),
+    ])
 typemap.initialize()
 newlibrary = ast.create_library_from_dictionary(lib)
 F = ["cxx_local_var", "c_local_var", "buf_args", "buf_extra", "c_arg_decl", "arg_call", "pre_call", "call",
@@ -123,9 +130,9 @@ print(json.dumps({"rows": rows, "default": default, "shape": shape(statements.cf
 '''
 
 
-def dump():
+def dump(language="c++"):
     e = dict(os.environ, PYTHONPATH=common.REPO, PYTHONDONTWRITEBYTECODE="1", PYTHONHASHSEED="0")
-    p = subprocess.run([sys.executable, "-c", DUMP], stdout=subprocess.PIPE, stderr=subprocess.PIPE, text=True, env=e)
+    p = subprocess.run([sys.executable, "-c", DUMP, language], stdout=subprocess.PIPE, stderr=subprocess.PIPE, text=True, env=e)
     if p.returncode:
         raise RuntimeError("extract_cstmts: dump failed: " + p.stderr[-2500:])
     return json.loads(p.stdout.strip().split("\n")[-1])
@@ -266,7 +273,7 @@ def build(data):
     return ids, names, entries, dflt_e, convs
 
 
-def render(ids, names, entries, dflt_e, convs, rows):
+def render(ids, names, entries, dflt_e, convs, rows, entries_c=()):
     out = ["/- GENERATED by tools/extract_cstmts.py from the /repo working tree.  Do not edit. -/",
            "import ShroudVerif.Model.WrapC", "namespace Shroud.Gen.CStmts", "open Shroud.WrapC", ""]
     out.append("/-! part ids: " + ", ".join("%d=%s" % (i, n.replace("*", "✱") or "''") for i, n in enumerate(names)) + " -/")
@@ -288,6 +295,13 @@ def render(ids, names, entries, dflt_e, convs, rows):
     out.append("")
     out.append("/-- `default_scopes[\"c\"]` (CStmts) -/")
     out.append("def defaultEntry : Entry := " + lean_entry(dflt_e))
+    out.append("")
+    out.append("/-- the same entries as configured by update_statements_for_language(\"c\") (library `language: c`): the")
+    out.append("    `cxx_*` clauses are not taken, the `c_*` clauses are -/")
+    out.append("def entriesC : List Entry := [")
+    for i, (e, r) in enumerate(zip(entries_c, rows)):
+        out.append("  /- %d %s -/ %s%s" % (i, "_".join(r["key"]).replace("*", "✱"), lean_entry(e), "," if i + 1 < len(entries_c) else ""))
+    out.append("]")
     out.append("")
     out.append("def keys : List (List Nat) := entries.map (·.key)")
     out.append("def tree : Tree := buildTree keys")
@@ -324,7 +338,14 @@ def regenerate():
     del UNMAPPED[:]
     data = dump()
     ids, names, entries, dflt_e, convs = build(data)
-    text = render(ids, names, entries, dflt_e, convs, data["rows"])
+    # the table of a `language: c` library: same keys in the same order, language clauses resolved for c
+    data_c = dump("c")
+    if [r["key"] for r in data_c["rows"]] != [r["key"] for r in data["rows"]]:
+        unmapped("the c and c++ statement tables differ in their keys")
+    entries_c = [entry_fields(r, ids, not (set(r["key"]) & NONPLAIN)) for r in data_c["rows"]
+                 if all(p in ids for p in r["key"])]
+    data["rows_c"] = data_c["rows"]
+    text = render(ids, names, entries, dflt_e, convs, data["rows"], entries_c)
     changed = write_if_changed(GEN, text)
     return {"entries": len(entries), "plain_entries": sum(1 for e in entries if e["plain"]), "parts": len(names),
             "typemaps": len(convs), "converting_typemaps": sum(1 for c in convs if c[3][0] or c[4][0]),
